@@ -42,3 +42,32 @@ package types
 //@ replay-assume p.NetworkName == "regtest"
 //@ modifies nothing
 //@ nopanic
+
+// ---- voted messages: stateless validation and the payload each vote signs -------
+
+// bflat(a, off, n): concatenation of the n byte strings a[off], ..., a[off+n-1]
+//@ smt (define-fun-rec bflat ((a (Array Int Bytes)) (off Int) (n Int)) Bytes (ite (<= n 0) bempty (bcat (bflat a off (- n 1)) (select a (+ off (- n 1))))))
+
+//@ func (*MsgNewBlockHashes).Validate
+//@ property C06 C19 C01
+//@ ensures shape: err == nil ==> req != nil && req.Vote != nil && req.StartBlockNumber != 0 && len(req.BlockHash) <= 16 && forall(j, 0, len(req.BlockHash), len(req.BlockHash[j]) == 32)
+//@ ensures vote: err == nil ==> len(req.Vote.Voters) <= 32 && len(req.Vote.Signature) == 48
+//@ loop 0 invariant forall(j, 0, rangeindex + 1, len(req.BlockHash[j]) == 32)
+//@ loop 0 invariant -1 <= rangeindex && rangeindex < len(req.BlockHash)
+//@ loop 0 decreases len(req.BlockHash) - rangeindex
+//@ modifies nothing
+//@ nopanic
+
+//@ func (*MsgNewBlockHashes).VoteSigDoc
+//@ property C01
+//@ requires req != nil
+//@ ensures payload: result == bcat(bcat(bzeros(8), le64(req.StartBlockNumber)), bflat(arr(req.BlockHash), off(req.BlockHash), len(req.BlockHash)))
+//@ loop 0 invariant -1 <= rangeindex && rangeindex < len(req.BlockHash)
+//@ loop 0 invariant data == bcat(bcat(bzeros(8), le64(req.StartBlockNumber)), bflat(arr(req.BlockHash), off(req.BlockHash), rangeindex + 1))
+//@ loop 0 decreases len(req.BlockHash) - rangeindex
+//@ modifies nothing
+
+//@ func (*MsgNewBlockHashes).MethodName
+//@ property C01
+//@ ensures result == "Bitcoin/NewBlocks"
+//@ modifies nothing
